@@ -172,12 +172,8 @@ Section Main.
   Lemma join_cons2 (sep t t1 : bytes) (ts : list bytes) : join sep (t :: t1 :: ts) = t ++ sep ++ join sep (t1 :: ts).
   Proof. reflexivity. Qed.
 
-  Lemma frame_set_offset p o : frame p (set_offset p o). Proof. repeat split. Qed.
   Lemma grown_set_offset p o : grown p (set_offset p o). Proof. split; [cbn; lia|]. intros _. repeat split. Qed.
-  Lemma frame_set_depth p o : frame p (set_depth p o). Proof. repeat split. Qed.
   Lemma grown_set_depth p o : grown p (set_depth p o). Proof. split; [cbn; lia|]. intros _. repeat split. Qed.
-  Lemma frame_set_buf p o : frame p (set_buf p o). Proof. repeat split. Qed.
-  Lemma grown_set_buf p o : grown p (set_buf p o). Proof. split; [cbn; lia|]. intros _. repeat split. Qed.
 
   (** the loop of print_array *)
   Lemma elements_spec pv : forall l, Forall (spec_of pv) l -> forallb fields_ok l = true ->
@@ -210,7 +206,7 @@ Section Main.
       + cbn [print_array_elements]. exists true, p2. split; [reflexivity|]. split; [exact F2|]. split; [|reflexivity].
         intros _. exists [t]. split; [cbn [map opt_all]; rewrite Rt; reflexivity|]. cbn [join].
         split; [exact TA2|]. split; [exact Dp2|exact G2].
-      + pose proof F2 as (Ff2 & Fn2 & Fr2).
+      + pose proof F2 as (Ff2 & Fn2 & Fr2 & _).
         rewrite Ff2.
         set (fmt := pb_format p) in *. set (len := if fmt then 2 else 1).
         assert (Hlen : 1 <= len <= 2) by (unfold len; destruct fmt; lia).
@@ -227,10 +223,10 @@ Section Main.
              apply C3. apply Hroom2. eapply room_mono; [exact R|]. rewrite join_cons2, !zlen_app, SL.
              pose proof (zlen_nonneg (join (sep_of fmt) (t1 :: ts1))). lia. }
         destruct (S3 eq_refl) as (TA3 & Len3 & Dp3 & G3).
-        pose proof F3 as (Ff3 & Fn3 & Fr3). rewrite Ff3, Ff2. fold fmt.
+        pose proof F3 as (Ff3 & Fn3 & Fr3 & _). rewrite Ff3, Ff2. fold fmt.
         destruct TA3 as (rest3 & B3 & O3 & _).
         replace ([ch_comma] ++ (if fmt then [ch_space] else []) ++ [0]) with (sep_of fmt ++ [0]) by (destruct fmt; reflexivity).
-        destruct (put_spec p3 (T ++ t) rest3 (sep_of fmt ++ [0]) 0 B3 ltac:(lia)) as (rest4 & p4 & E4 & P4 & B4).
+        destruct (put_spec p3 (T ++ t) rest3 (sep_of fmt ++ [0]) 0 B3 ltac:(lia)) as (rest4 & p4 & E4 & P4 & B4 & Fp4).
         { destruct B3 as (_ & B3). rewrite !zlen_app, zlen_cons, zlen_nil in *. lia. }
         rewrite E4. cbn [bind].
         set (p5 := set_offset p4 (pb_offset p4 + len)).
@@ -241,14 +237,14 @@ Section Main.
           - unfold p5. subst p4. cbn. rewrite O3, !zlen_app. lia.
           - rewrite zlen_cons. pose proof (zlen_nonneg rest4). lia. }
         assert (F5 : frame p p5).
-        { eapply frame_trans; [exact F2|]. eapply frame_trans; [exact F3|]. unfold p5. subst p4. repeat split. }
+        { eapply frame_trans; [exact F2|]. eapply frame_trans; [exact F3|]. eapply frame_trans; [exact Fp4|apply frame_set_offset]. }
         assert (G5 : grown p p5).
         { eapply grown_trans; [exact F2|exact G2|].
           eapply grown_trans; [exact F3|exact G3|]. unfold p5. subst p4. split; [cbn; lia|]. intros _. repeat split. }
         assert (Dp5 : pb_depth p5 = pb_depth p) by (unfold p5; subst p4; cbn; rewrite Dp3; exact Dp2).
         destruct (IH Hi2 p5 _ TA5 ltac:(lia)) as (ok6 & p6 & E6 & F6 & S6 & C6).
         rewrite E6. exists ok6, p6. split; [reflexivity|]. split; [eapply frame_trans; [exact F5|exact F6]|].
-        pose proof F5 as (Ff5 & Fn5 & Fr5). rewrite Ff5, Dp5 in S6, C6. fold fmt in S6, C6.
+        pose proof F5 as (Ff5 & Fn5 & Fr5 & _). rewrite Ff5, Dp5 in S6, C6. fold fmt in S6, C6.
         split.
         * intros Hok. destruct (S6 Hok) as (ts & Hts & TA6 & Dp6 & G6).
           exists (t :: ts). split; [cbn [map opt_all] in Hts |- *; rewrite Rt, Hts; reflexivity|].
@@ -376,7 +372,7 @@ Section Main.
       assert (G5 : grown p p5).
       { subst p5. eapply grown_trans; [exact F3|exact G3|]. eapply grown_trans; [exact F4|exact G4|apply grown_set_offset]. }
       assert (D5 : pb_depth p5 = d) by (subst p5; cbn; rewrite Dp4; exact D3).
-      pose proof F5 as (Ff5 & _ & _). fold fmt in Ff5. rewrite Ff5.
+      pose proof F5 as (Ff5 & _ & _ & _). fold fmt in Ff5. rewrite Ff5.
       (* colon *)
       set (T5 := (T ++ ind fmt d) ++ render_string (n_key c)) in *.
       destruct (write_token oracle junk p5 T5 (col fmt) (if fmt then 2 else 1) TA5 ltac:(destruct fmt; lia) ltac:(lia))
@@ -389,7 +385,7 @@ Section Main.
            apply C6. apply Fp5. eapply room_mono; [exact R|]. pose proof (zlen_nonneg v). pose proof (Hpos ts).
            unfold T5. rewrite !zlen_app. destruct fmt, (has_next next); lia. }
       destruct (S6 eq_refl) as (D6 & p7 & E7 & F7 & G7 & D7 & O7 & Len7 & Adv7 & _).
-      pose proof F6 as (Ff6 & _ & _). rewrite Ff6, Ff5. fold (col fmt). rewrite E7. cbn [bind].
+      pose proof F6 as (Ff6 & _ & _ & _). rewrite Ff6, Ff5. fold (col fmt). rewrite E7. cbn [bind].
       rewrite <- CL.
       pose proof (Adv7 (col fmt) [] ltac:(rewrite app_nil_r; reflexivity)) as TA8.
       set (p8 := set_offset p7 (pb_offset p7 + zlen (col fmt))) in *.
@@ -398,7 +394,7 @@ Section Main.
       assert (D8 : pb_depth p8 = d) by (unfold p8; cbn; rewrite D7; exact D5).
       (* value *)
       destruct (Hc Hi1 p8 _ TA8 ltac:(lia)) as (ok9 & p9 & E9 & F9 & S9 & C9).
-      pose proof F8 as (Ff8 & _ & _). fold fmt in Ff8. rewrite Ff8, D8 in S9, C9.
+      pose proof F8 as (Ff8 & _ & _ & _). fold fmt in Ff8. rewrite Ff8, D8 in S9, C9.
       rewrite E9. cbn [bind].
       assert (Fp8 : forall k, room p k -> room p8 k) by (intros k R; eapply room_step; [exact F8|exact G8|exact R]).
       destruct ok9; cbn [negb].
@@ -414,7 +410,7 @@ Section Main.
       assert (G10 : grown p p10).
       { subst p10. eapply grown_trans; [exact F8|exact G8|]. eapply grown_trans; [exact F9|exact G9|apply grown_set_offset]. }
       assert (D10 : pb_depth p10 = d) by (subst p10; cbn; exact Dp9).
-      pose proof F10 as (Ff10 & _ & _). fold fmt in Ff10. rewrite Ff10.
+      pose proof F10 as (Ff10 & _ & _ & _). fold fmt in Ff10. rewrite Ff10.
       (* comma / newline *)
       fold (has_next next).
       set (T10 := (T5 ++ col fmt) ++ v) in *.
@@ -431,7 +427,7 @@ Section Main.
            apply C11. apply Fp10. eapply room_mono; [exact R|]. pose proof (Hpos ts).
            unfold T10, T5. rewrite !zlen_app. destruct fmt, (has_next next); lia. }
       destruct (S11 eq_refl) as (D11 & p12 & E12 & F12 & G12 & D12 & O12 & Len12 & Adv12 & _).
-      pose proof F11 as (Ff11 & _ & _). rewrite Ff11, Ff10.
+      pose proof F11 as (Ff11 & _ & _ & _). rewrite Ff11, Ff10.
       replace ((if has_next next then [ch_comma] else []) ++ (if fmt then [ch_nl] else []) ++ [0]) with (tl fmt (has_next next) ++ [0])
         by (unfold tl; rewrite <- app_assoc; reflexivity).
       rewrite E12. cbn [bind]. rewrite <- TLn.
@@ -442,7 +438,7 @@ Section Main.
       assert (D13 : pb_depth p13 = d) by (unfold p13; cbn; rewrite D12; exact D10).
       (* the remaining members *)
       destruct (IH Hi2 p13 _ TA13 ltac:(lia)) as (ok14 & p14 & E14 & F14 & S14 & C14).
-      pose proof F13 as (Ff13 & _ & _). fold fmt in Ff13. rewrite Ff13, D13 in S14, C14.
+      pose proof F13 as (Ff13 & _ & _ & _). fold fmt in Ff13. rewrite Ff13, D13 in S14, C14.
       rewrite E14. exists ok14, p14. split; [reflexivity|]. split; [eapply frame_trans; [exact F13|exact F14]|].
       split.
       + intros Hok. destruct (S14 Hok) as (ts & Hts & TA14 & Dp14 & G14).
@@ -495,11 +491,11 @@ Section Main.
     pose proof (Adv2 [ch_lbrack] [] eq_refl) as TA3. change (zlen [ch_lbrack]) with 1 in TA3.
     apply (text_at_set_depth _ _ (pb_depth p2 + 1)) in TA3.
     set (p3 := set_depth (set_offset p2 (pb_offset p2 + 1)) (pb_depth p2 + 1)) in *.
-    assert (F3 : frame p p3) by (eapply frame_trans; [exact F2|repeat split]).
+    assert (F3 : frame p p3) by (eapply frame_trans; [exact F2|]; eapply frame_trans; [apply frame_set_offset|apply frame_set_depth]).
     assert (G3 : grown p p3) by (eapply grown_trans; [exact F2|exact G2|split; [cbn; lia|intros _; repeat split]]).
     assert (D3 : pb_depth p3 = d + 1) by (unfold p3; cbn; rewrite D2; reflexivity).
     destruct (elements_spec pv ch Hch Hi p3 _ TA3 ltac:(lia)) as (ok4 & p4 & E4 & F4 & S4 & C4).
-    pose proof F3 as (Ff3 & _ & _). fold fmt in Ff3. rewrite Ff3, D3 in S4, C4.
+    pose proof F3 as (Ff3 & _ & _ & _). fold fmt in Ff3. rewrite Ff3, D3 in S4, C4.
     rewrite E4. cbn [bind].
     destruct ok4; cbn [negb].
     2: { exists false, p4. split; [reflexivity|]. split; [eapply frame_trans; [exact F3|exact F4]|]. split; [discriminate|].
@@ -517,7 +513,7 @@ Section Main.
          rewrite Hlen, !zlen_app, zlen_cons, zlen_nil. lia. }
     destruct (S5 eq_refl) as (D5 & p6 & E6 & F6 & G6 & D6 & O6 & Len6 & _ & Dn6).
     rewrite E6. cbn [bind].
-    eexists true, _. split; [reflexivity|]. split; [eapply frame_trans; [exact F4'|]; eapply frame_trans; [exact F6|repeat split]|].
+    eexists true, _. split; [reflexivity|]. split; [eapply frame_trans; [exact F4'|]; eapply frame_trans; [exact F6|apply frame_set_depth]|].
     split; [|reflexivity]. intros _. exists txts. split; [exact Ht|].
     split; [apply done_set_depth; apply done_reassoc; apply done_reassoc; apply (Dn6 [ch_rbrack]); reflexivity|].
     split; [cbn; rewrite D6, D4; lia|].
@@ -552,17 +548,17 @@ Section Main.
     2: { exists false, p1. split; [reflexivity|]. split; [exact F1|]. split; [discriminate|].
          intros txts _ R. apply C1. eapply room_mono; [exact R|]. rewrite Hlen. pose proof (Hpos txts). destruct fmt; lia. }
     destruct (S1 eq_refl) as (D1 & p2 & E2 & F2 & G2 & D2 & O2 & Len2 & Adv2 & _).
-    pose proof F1 as (Ff1 & _ & _). fold fmt in Ff1. rewrite Ff1. fold (opn fmt). rewrite E2. cbn [bind].
+    pose proof F1 as (Ff1 & _ & _ & _). fold fmt in Ff1. rewrite Ff1. fold (opn fmt). rewrite E2. cbn [bind].
     pose proof (Adv2 (opn fmt) [] ltac:(rewrite app_nil_r; reflexivity)) as TA3. rewrite OL in TA3.
     apply (text_at_set_depth _ _ (pb_depth p2 + 1)) in TA3.
     change (set_depth (set_offset p2 (pb_offset p2 + (if fmt then 2 else 1))) (pb_depth p2 + 1))
       with (set_offset (set_depth p2 (pb_depth p2 + 1)) (pb_offset p2 + (if fmt then 2 else 1))) in TA3.
     set (p3 := set_offset (set_depth p2 (pb_depth p2 + 1)) (pb_offset p2 + (if fmt then 2 else 1))) in *.
-    assert (F3 : frame p p3) by (eapply frame_trans; [exact F2|repeat split]).
+    assert (F3 : frame p p3) by (eapply frame_trans; [exact F2|]; eapply frame_trans; [apply frame_set_depth|apply frame_set_offset]).
     assert (G3 : grown p p3) by (eapply grown_trans; [exact F2|exact G2|split; [cbn; lia|intros _; repeat split]]).
     assert (D3 : pb_depth p3 = d + 1) by (unfold p3; cbn; rewrite D2; reflexivity).
     destruct (members_spec pv ch Hch Hi p3 _ TA3 ltac:(lia)) as (ok4 & p4 & E4 & F4 & S4 & C4).
-    pose proof F3 as (Ff3 & _ & _). fold fmt in Ff3. rewrite Ff3, D3 in S4, C4.
+    pose proof F3 as (Ff3 & _ & _ & _). fold fmt in Ff3. rewrite Ff3, D3 in S4, C4.
     rewrite E4. cbn [bind].
     destruct ok4; cbn [negb].
     2: { exists false, p4. split; [reflexivity|]. split; [eapply frame_trans; [exact F3|exact F4]|]. split; [discriminate|].
@@ -571,7 +567,7 @@ Section Main.
     destruct (S4 eq_refl) as (txts & Ht & TA4 & D4 & G4).
     assert (F4' : frame p p4) by (eapply frame_trans; [exact F3|exact F4]).
     assert (G4' : grown p p4) by (eapply grown_trans; [exact F3|exact G3|exact G4]).
-    pose proof F4' as (Ff4 & _ & _). fold fmt in Ff4. rewrite Ff4, D4.
+    pose proof F4' as (Ff4 & _ & _ & _). fold fmt in Ff4. rewrite Ff4, D4.
     destruct (write_token oracle junk p4 _ (ind fmt d ++ [ch_rbrace; 0]) (if fmt then d + 1 + 1 else 2) TA4
                 ltac:(destruct fmt; lia) ltac:(rewrite zlen_app, IL; change (zlen [ch_rbrace; 0]) with 2; destruct fmt; lia)) as (ok5 & p5 & E5 & F5 & C5 & S5).
     rewrite E5. cbn [bind].
@@ -581,11 +577,11 @@ Section Main.
          apply C5. eapply room_step; [exact F4'|exact G4'|]. eapply room_mono; [exact R|].
          rewrite Hlen, !zlen_app, IL. destruct fmt; lia. }
     destruct (S5 eq_refl) as (D5 & p6 & E6 & F6 & G6 & D6 & O6 & Len6 & _ & Dn6).
-    pose proof F5 as (Ff5 & _ & _). rewrite Ff5, Ff4, D5, D4.
+    pose proof F5 as (Ff5 & _ & _ & _). rewrite Ff5, Ff4, D5, D4.
     replace ((if fmt then tabs (d + 1 - 1) else []) ++ [ch_rbrace; 0]) with (ind fmt d ++ [ch_rbrace; 0])
       by (unfold ind; replace (d + 1 - 1) with d by lia; reflexivity).
     rewrite E6. cbn [bind].
-    eexists true, _. split; [reflexivity|]. split; [eapply frame_trans; [exact F4'|]; eapply frame_trans; [exact F6|repeat split]|].
+    eexists true, _. split; [reflexivity|]. split; [eapply frame_trans; [exact F4'|]; eapply frame_trans; [exact F6|apply frame_set_depth]|].
     split; [|reflexivity]. intros _. exists txts. split; [exact Ht|].
     split.
     { apply done_set_depth. unfold object_text.
@@ -661,6 +657,7 @@ Section Main.
   Theorem prealloc_spec (t : node) (buf : bytes) (fmt hr : bool) :
     fields_ok t = true ->
     exists r, cJSON_PrintPreallocated t (Some buf) (zlen buf) fmt hr = Ok r /\
+      (par_live r = 0 /\ par_requests r = 0%nat /\ exists b', par_buffer r = Some b' /\ zlen b' = zlen buf) /\
       (par_flag r = true -> exists txt rest, render fmt 0 t = Some txt /\ par_buffer r = Some (txt ++ 0 :: rest) /\
                             zlen (txt ++ 0 :: rest) = zlen buf /\ zlen txt + 2 <= zlen buf) /\
       (zlen buf <= c_INT_MAX -> forall txt, render fmt 0 t = Some txt -> zlen txt + 2 <= zlen buf -> par_flag r = true).
@@ -671,7 +668,13 @@ Section Main.
     assert (HT : text_at p []).
     { exists buf. split; [split; [reflexivity|cbn; rewrite zlen_nil; lia]|]. split; [reflexivity|]. cbn. lia. }
     destruct (print_value_spec t Hi p [] HT ltac:(cbn; lia)) as (ok & p' & E & F & S & C).
-    rewrite E. cbn [bind]. eexists. split; [reflexivity|]. cbn [par_flag par_buffer].
+    rewrite E. cbn [bind]. eexists. split; [reflexivity|]. cbn [par_flag par_buffer par_live par_requests].
+    split.
+    { (* success or not: the allocator was never called and the block is still the caller's n bytes *)
+      destruct F as (_ & _ & _ & Q). destruct (Q eq_refl) as (q1 & q2 & q3).
+      split; [exact q2|]. split; [exact q1|].
+      unfold blen in q3. cbn [pb_buf p] in q3. destruct (pb_buf p') as [b'|]; [exists b'; split; [reflexivity|exact q3]|].
+      pose proof (zlen_nonneg buf). lia. }
     split.
     - intros Hok. destruct (S Hok) as (txt & R & (rest & (B1 & B2) & O) & _ & Len & (_ & G)). destruct (G eq_refl) as (g1 & _).
       exists txt, rest. cbn [app] in B1, B2. change (zlen (@nil Z)) with 0 in Len. change (pb_length p) with (zlen buf) in g1.
@@ -776,3 +779,127 @@ Section Main.
     + intros _ txt' R' _. rewrite R in R'. injection R' as <-. exists rest. reflexivity.
   Qed.
 End Main.
+
+(** ------------------------------------------------------------------ C09: the statements closed in Properties_C09.v *)
+Section C09.
+  Variable fmt_d : Z -> bytes.
+  Variable fmt_g15 fmt_g17 : dbl -> bytes.
+  Variable sscanf_lg : bytes -> option dbl.
+  Hypothesis libc : LibcPrintSpec fmt_d fmt_g15 fmt_g17.
+  Variable oracle : nat -> bool.
+  Variable junk : nat -> Z.
+  Notation render := (PrintDefs.render fmt_d fmt_g15 fmt_g17 sscanf_lg).
+  Notation prealloc := (PrintDefs.cJSON_PrintPreallocated fmt_d fmt_g15 fmt_g17 sscanf_lg oracle junk).
+
+  (** (1) the outcome is never OOB (no write index >= n, no read outside the buffer) nor OutOfFuel *)
+  Lemma C09_no_overflow_proof (t : node) (buf : bytes) (fmt hr : bool) :
+    fields_ok t = true -> exists r, prealloc t (Some buf) (zlen buf) fmt hr = Ok r.
+  Proof.
+    intros Hi. destruct (prealloc_spec fmt_d fmt_g15 fmt_g17 sscanf_lg libc oracle junk t buf fmt hr Hi) as (r & E & _).
+    exists r. exact E.
+  Qed.
+
+  (** (1') on every path, successful or not, the allocator is never called and the block handed back is
+      still the caller's n bytes: nothing outside it can have been touched through the model's state *)
+  Lemma C09_caller_block_proof (t : node) (buf : bytes) (fmt hr : bool) r :
+    fields_ok t = true -> prealloc t (Some buf) (zlen buf) fmt hr = Ok r ->
+    par_live r = 0 /\ par_requests r = 0%nat /\ exists b', par_buffer r = Some b' /\ zlen b' = zlen buf.
+  Proof.
+    intros Hi E. destruct (prealloc_spec fmt_d fmt_g15 fmt_g17 sscanf_lg libc oracle junk t buf fmt hr Hi) as (r' & E' & Q & _).
+    rewrite E in E'. injection E' as <-. exact Q.
+  Qed.
+
+  (** (2) true => the buffer (still n bytes) starts with the rendered text and its terminator *)
+  Lemma C09_content_proof (t : node) (buf : bytes) (fmt hr : bool) r :
+    fields_ok t = true -> prealloc t (Some buf) (zlen buf) fmt hr = Ok r -> par_flag r = true ->
+    exists txt rest, render fmt 0 t = Some txt /\ par_buffer r = Some (txt ++ 0 :: rest) /\ zlen (txt ++ 0 :: rest) = zlen buf.
+  Proof.
+    intros Hi E Hf. destruct (prealloc_spec fmt_d fmt_g15 fmt_g17 sscanf_lg libc oracle junk t buf fmt hr Hi) as (r' & E' & _ & S & _).
+    rewrite E in E'. injection E' as <-. destruct (S Hf) as (txt & rest & R & B & L & _). exists txt, rest. auto.
+  Qed.
+
+  (** (3) the exact threshold: true <=> the tree is printable and its text plus two bytes fits *)
+  Lemma C09_threshold_proof (t : node) (buf : bytes) (fmt hr : bool) r :
+    fields_ok t = true -> zlen buf <= c_INT_MAX -> prealloc t (Some buf) (zlen buf) fmt hr = Ok r ->
+    (par_flag r = true <-> exists txt, render fmt 0 t = Some txt /\ zlen txt + 2 <= zlen buf).
+  Proof.
+    intros Hi Hm E. destruct (prealloc_spec fmt_d fmt_g15 fmt_g17 sscanf_lg libc oracle junk t buf fmt hr Hi) as (r' & E' & _ & S & C).
+    rewrite E in E'. injection E' as <-. split.
+    - intros Hf. destruct (S Hf) as (txt & rest & R & _ & _ & L). exists txt. auto.
+    - intros (txt & R & L). exact (C Hm txt R L).
+  Qed.
+
+  (** success whenever the buffer is five bytes larger than the text and its terminator *)
+  Lemma C09_slack_proof (t : node) (buf : bytes) (fmt hr : bool) r txt :
+    fields_ok t = true -> zlen buf <= c_INT_MAX -> prealloc t (Some buf) (zlen buf) fmt hr = Ok r ->
+    render fmt 0 t = Some txt -> zlen txt + 1 + 5 <= zlen buf -> par_flag r = true.
+  Proof.
+    intros Hi Hm E R L. apply (C09_threshold_proof t buf fmt hr r Hi Hm E). exists txt. split; [exact R|lia].
+  Qed.
+End C09.
+
+(** success is monotone in the buffer length, whatever the two buffers contain, whatever the allocator
+    state: the threshold does not mention them *)
+Lemma C09_monotone_proof fmt_d fmt_g15 fmt_g17 sscanf_lg (libc : LibcPrintSpec fmt_d fmt_g15 fmt_g17)
+      oracle junk oracle' junk' (t : node) (buf buf' : bytes) (fmt hr hr' : bool) r r' :
+  fields_ok t = true -> zlen buf <= zlen buf' -> zlen buf' <= c_INT_MAX ->
+  cJSON_PrintPreallocated fmt_d fmt_g15 fmt_g17 sscanf_lg oracle junk t (Some buf) (zlen buf) fmt hr = Ok r ->
+  cJSON_PrintPreallocated fmt_d fmt_g15 fmt_g17 sscanf_lg oracle' junk' t (Some buf') (zlen buf') fmt hr' = Ok r' ->
+  par_flag r = true -> par_flag r' = true.
+Proof.
+  intros Hi Hle Hm E E' Hf.
+  apply (C09_threshold_proof fmt_d fmt_g15 fmt_g17 sscanf_lg libc oracle junk t buf fmt hr r Hi ltac:(lia) E) in Hf as (txt & R & L).
+  apply (C09_threshold_proof fmt_d fmt_g15 fmt_g17 sscanf_lg libc oracle' junk' t buf' fmt hr' r' Hi Hm E'). exists txt. split; [exact R|lia].
+Qed.
+
+(** ------------------------------------------------------------------ non-vacuity *)
+(** A libc satisfying [LibcPrintSpec]: the reference conversions of LibcPrint.v behind a run-time
+    guard (an output that is not a C string of at most 25 bytes is replaced by "0").  On every
+    argument where the reference behaves like a C library the guard is the identity. *)
+From CJ Require Import LibcNum LibcPrint.
+Definition c_string_25 (s : bytes) : bool := forallb (fun c => negb (c =? 0)) s && (zlen s <=? c_NUMBER_BUFFER_SIZE - 1).
+Definition guard (s : bytes) : bytes := if c_string_25 s then s else [48].
+Definition guarded_fmt_d (z : Z) : bytes := guard (LibcPrint.fmt_d z).
+Definition guarded_fmt_g15 (d : dbl) : bytes := guard (LibcPrint.fmt_g15 d).
+Definition guarded_fmt_g17 (d : dbl) : bytes := guard (LibcPrint.fmt_g17 d).
+
+Lemma guard_ok s : Forall (fun c => c <> 0) (guard s) /\ zlen (guard s) <= c_NUMBER_BUFFER_SIZE - 1.
+Proof.
+  unfold guard. destruct (c_string_25 s) eqn:G.
+  - unfold c_string_25 in G. apply andb_true_iff in G as (G1 & G2). apply Z.leb_le in G2. split; [|exact G2].
+    apply Forall_forall. intros c Hc. rewrite forallb_forall in G1. specialize (G1 c Hc).
+    apply negb_true_iff in G1. apply Z.eqb_neq in G1. exact G1.
+  - split; [repeat constructor; lia|reflexivity || (unfold zlen; cbn; unfold c_NUMBER_BUFFER_SIZE; lia)].
+Qed.
+
+Lemma guarded_libc_spec : LibcPrintSpec guarded_fmt_d guarded_fmt_g15 guarded_fmt_g17.
+Proof. split; intros; apply guard_ok. Qed.
+
+(** a concrete run: {"a":[1.5,"x\n"],"b":-7} printed formatted into a 40-byte buffer full of 0xA5 *)
+Definition nv_tree : node :=
+  Node c_cJSON_Object None 0 (S754_zero false) None
+    [ Node c_cJSON_Array None 0 (S754_zero false) (Some [97])
+        [ Node c_cJSON_Number None 1 (S754_finite false 6755399441055744 (-52)) None [];
+          Node c_cJSON_String (Some [120; 10]) 0 (S754_zero false) None [] ];
+      Node c_cJSON_Number None (-7) (S754_finite true 7881299347898368 (-50)) (Some [98]) [] ].
+Definition nv_buffer : bytes := repeat 165 40.
+Definition nv_text : bytes :=
+  [123; 10; 9; 34; 97; 34; 58; 9; 91; 49; 46; 53; 44; 32; 34; 120; 92; 110; 34; 93; 44; 10; 9; 34; 98; 34; 58; 9; 45; 55; 10; 125].
+
+Lemma C09_nonvacuous_proof :
+  fields_ok nv_tree = true /\
+  render guarded_fmt_d guarded_fmt_g15 guarded_fmt_g17 sscanf_lg true 0 nv_tree = Some nv_text /\
+  exists r, cJSON_PrintPreallocated guarded_fmt_d guarded_fmt_g15 guarded_fmt_g17 sscanf_lg (fun _ => false) (fun _ => 165)
+              nv_tree (Some nv_buffer) (zlen nv_buffer) true false = Ok r /\
+            par_flag r = true /\ par_buffer r = Some (nv_text ++ 0 :: repeat 165 7).
+Proof.
+  split; [vm_compute; reflexivity|]. split; [vm_compute; reflexivity|].
+  eexists. split; [vm_compute; reflexivity|]. split; reflexivity.
+Qed.
+
+(** ------------------------------------------------------------------ F19 on the pinned tree *)
+(** The manual-growth branch of ensure as the pinned tree had it: growing an EMPTY buffer (what
+    cJSON_PrintBuffered(item, 0, fmt) does under custom hooks) reads one byte from a 0-byte block. *)
+Lemma F19_empty_buffer_growth_refuted_pinned :
+  ensure_grow_manual_pinned (fun _ => false) (fun _ => 165) (mkpb (Some []) 0 0 0 false false false 1 1) [] 12 = OOB.
+Proof. vm_compute. reflexivity. Qed.
